@@ -121,7 +121,20 @@ Definition timer_idle_ok (c : state) (p r : list Z) : bool :=
            let plo := (Z.min (pf p 12) (pf r 12) - 100000) / 2 in
            (Z.max i' (3 * plo) <=? dt) && (dt <=? Z.max imax (3 * phi) + 4)
        end)
-  | _, _ => false
+  | None, Some d =>
+      (* the peer's parameters arrived in this interval and ENABLED the idle timeout (none
+         before), and a later packet of the same interval armed the timer: its arming instant
+         lies between the two probes *)
+      match idle_timeout c, oz (pf r 13) with
+      | None, Some i =>
+          let phi := 2 * Z.max (pf p 12) (pf r 12) in
+          let plo := (Z.min (pf p 12) (pf r 12) - 100000) / 2 in
+          (rtime p <=? d - Z.max i (3 * plo)) && (d - Z.max i (3 * phi) - 4 <=? rtime r)
+      | _, _ => false
+      end
+  | Some _, None =>
+      (* the negotiation yielded "none" in this interval: [set_peer_params] stops the timer *)
+      pf r 13 <? 0
   end.
 Definition timer_ka_ok (c : state) (r : list Z) : bool :=
   match t_ka c, oz (pf r 23) with
@@ -133,7 +146,9 @@ Definition explains (c : state) (p r : list Z) : bool :=
   (tag_of (st c) =? pf r 0) && Bool.eqb (close c) (pf r 9 =? 1) &&
   Bool.eqb (negb (err_kind c =? 0)) (pf r 31 =? 1) &&
   Bool.eqb (permit_idle_reset c) (pf r 17 =? 1) &&
-  timer_close_ok c p r && timer_idle_ok c p r && timer_ka_ok c r.
+  timer_close_ok c p r && timer_idle_ok c p r && timer_ka_ok c r &&
+  (* Props/C08.v C08_no_negotiated_timeout_no_idle_timer *)
+  ((0 <=? pf r 13) || (pf r 19 <? 0)).
 
 (** re-synchronise a surviving candidate with the real deadlines and the real idle timeout *)
 Definition resync (c : state) (r : list Z) : state :=
